@@ -2,6 +2,8 @@
 SPEC = {
     "bins": [
         {"name": "c19", "pkg": "./zz_verif/c19", "run": ".", "shards": {"quick": 1, "thorough": 16}},
+        # the concurrent sub-check once more under the race detector (results are compared in both builds)
+        {"name": "c19conc", "pkg": "./zz_verif/c19", "run": "^TestC19Concurrent$", "race": True, "shards": {"quick": 1, "thorough": 4}},
         {"name": "c19wb-count", "pkg": "./vdaf/prio3/count", "run": "^TestVerifC19", "whitebox": True, "shards": {"quick": 1, "thorough": 2}},
         {"name": "c19wb-sum", "pkg": "./vdaf/prio3/sum", "run": "^TestVerifC19", "whitebox": True, "shards": {"quick": 1, "thorough": 4}},
         {"name": "c19wb-sumvec", "pkg": "./vdaf/prio3/sumvec", "run": "^TestVerifC19", "whitebox": True, "shards": {"quick": 1, "thorough": 4}},
@@ -14,12 +16,14 @@ SPEC = {
             "0..3 altered reports and 0..1 invalid measurements interleaved with the valid ones), every message crossing the aggregator boundary in marshalled form; "
             "constructor case = (instance, one of the three named degenerate arguments [chunk length 0, 0 or 1 aggregators, Sum bound >= 2^63], otherwise admissible parameters); "
             "structured case = one honest report, then every element of the leader share and of one prep share changed by an element whose Montgomery form is zero outside one bit window, for every window. "
+            "concurrent rounds (both tiers, also as a -race binary): 20 goroutines behind a barrier, 12 with their own instance (all five types, different parameters) and 8 sharing three objects under a lock, each running whole pipelines (honest, altered proof element, altered nonce); every message, decision and aggregate must equal the sequential run with the same inputs. "
             "overflow points (both tiers): SumVec with 63/64-bit entries, every position in turn driven past 2^64 (error expected) and to exactly 2^64-1 (exact value expected). "
             "deterministic points (both tiers): one honest report per instance with 127/128/129/200/255 aggregators and RAND_SIZE = 32*SHARES (x2 with joint randomness); one honest report with 2 aggregators at the smallest value of every parameter (incl. the zero-bit instances), at every Sum bit width 1..63 and at 2^j-1 and 2^j gadget calls for j = 1..11 (NTT sizes up to 2^13) for SumVec, Histogram and MultihotCountVec. "
             "white-box case = (instance parameters, valid encoded measurement, 0 or 1 invalidating edit, 1/2/3/16 shares) proved, shared, queried and decided directly on the FLP. "
             "non-trivial = batch with more than two aggregators or an extreme measurement; an altered report or invalid measurement that was evaluated (and refused); a degenerate constructor call; a white-box FLP decision. "
             "distinct by FNV-64 of (sub-check, instance description, measurements, nonces, randomness, verify key, alteration label)",
     "assumptions": COMMON_ASSUME + [
+        "the harness does not own the Go scheduler: an interleaving that needs one precise preemption point may be missed; one instance object is only shared with the calls serialised (the types are not documented as safe for concurrent use)",
         "soundness error of the proof system (at most about 2*1024/2^64 per altered report for the 64-bit field, far less for the 128-bit field) is ignored: an altered report accepted by chance would be a false alarm",
         "'rejected' means: a decoder refuses the bytes, or PrepInit / PrepSharesToPrep / PrepNext returns an error at one aggregator at least (such a report is dropped by all); the classes are counted separately",
         "nonces are unique per report and helper seeds are not reused across reports when a share of one report is spliced into another (otherwise the splice is a replay of a valid report and nothing is asserted)",
